@@ -136,4 +136,51 @@ def skelFindStrongQuorumForExpected : List String :=
 
 theorem skelFindStrongQuorumFor_expected : skelFindStrongQuorumFor = skelFindStrongQuorumForExpected := rfl
 
+/-- the structure the model of `BeginInstance` was written against -/
+def skelBeginInstanceExpected : List String :=
+  ["0:assign:=", "0:assign:=", "0:if", "1:return1", "0:if", "1:return1", "0:assign=", "0:if", "1:return1",
+   "0:assign:=", "0:if", "1:return1", "0:if", "1:return1", "0:if", "1:return1", "0:assign:=", "0:if",
+   "1:range", "2:call:p.trace", "0:if", "1:return1", "0:call:p.handleDecision", "0:return1"]
+
+theorem skelBeginInstance_expected : skelBeginInstance = skelBeginInstanceExpected := rfl
+
+/-- the structure the model of `ReceiveAlarm` was written against -/
+def skelReceiveAlarmExpected : List String :=
+  ["0:if", "1:call:panic", "0:defer", "0:defer", "0:if", "1:return1", "0:if", "1:return1",
+   "0:call:p.handleDecision", "0:return1"]
+
+theorem skelReceiveAlarm_expected : skelReceiveAlarm = skelReceiveAlarmExpected := rfl
+
+/-- the structure the model of `HasBase` was written against -/
+def skelHasBaseExpected : List String :=
+  ["0:return1"]
+
+theorem skelHasBase_expected : skelHasBase = skelHasBaseExpected := rfl
+
+/-- the structure the model of `TipSetEqual` was written against -/
+def skelTipSetEqualExpected : List String :=
+  ["0:if", "1:return1", "0:return1"]
+
+theorem skelTipSetEqual_expected : skelTipSetEqual = skelTipSetEqualExpected := rfl
+
+/-- the structure the model of `ChainEq` was written against -/
+def skelChainEqExpected : List String :=
+  ["0:if", "1:return1", "0:if", "1:return1", "0:range", "1:if", "2:return1", "0:return1"]
+
+theorem skelChainEq_expected : skelChainEq = skelChainEqExpected := rfl
+
+/-- the structure the model of `ReceiveMany` was written against -/
+def skelReceiveManyExpected : List String :=
+  ["0:if", "1:return1", "0:assign:=", "0:range", "1:assign:=", "1:if", "2:if", "3:call:i.log", "2:else",
+   "3:return1", "1:if", "2:assign=", "0:assign:=", "0:range", "1:assign=", "0:call:sort.Slice",
+   "0:call:i.postReceive", "0:return1"]
+
+theorem skelReceiveMany_expected : skelReceiveMany = skelReceiveManyExpected := rfl
+
+/-- the structure the model of `ShouldSkipToRound` was written against -/
+def skelShouldSkipToRoundExpected : List String :=
+  ["0:assign:=", "0:if", "1:return3", "0:if", "1:return3", "0:assign:=", "0:if", "1:return3", "0:return3"]
+
+theorem skelShouldSkipToRound_expected : skelShouldSkipToRound = skelShouldSkipToRoundExpected := rfl
+
 end F3.SkelTie.SkelGpbft
